@@ -1,6 +1,7 @@
 mod hooks;
 mod model;
 mod txm;
+mod txo;
 mod c01;
 mod c02;
 mod c03;
